@@ -626,11 +626,12 @@ class C08(Check):
             leaks, edits0, edits1 = {}, [], []
             for nm in nodes:
                 st = rng.choice([0, hstep, hstep // 2, kp * hstep - 7])
-                en = rng.choice([None, None, (kp + 1) * hstep, nst * hstep + 5])
+                en = rng.choice([None, None, (kp + 1) * hstep, nst * hstep + 5])  # always after st (st < kp*hstep)
                 leaks[nm] = (rng.choice([1e-4, 5e-4, 0.001]), rng.choice([0.6, 0.75, 1.0]), st, en)
             for nm in ["J0", "J1", "J2", "T"]:
                 r = rng.random()
-                newp = (rng.choice([2e-4, 8e-4, 0.002]), rng.choice([0.5, 0.9]), kp * hstep + rng.choice([hstep, hstep // 2 + 11, 2 * hstep]), rng.choice([None, nst * hstep - 3]))
+                nst_ = kp * hstep + rng.choice([hstep, hstep // 2 + 11, 2 * hstep])
+                newp = (rng.choice([2e-4, 8e-4, 0.002]), rng.choice([0.5, 0.9]), nst_, rng.choice([None, nst_ + hstep + 13, nst_ + hstep // 3]))  # end after start
                 if nm in leaks:
                     if r < 0.3:
                         edits1.append(("remove", nm))
